@@ -260,6 +260,8 @@ class AsyncSut:
             if ws is not None:
                 ty = ev.get('type')
                 if ty == 'websocket.accept':
+                    if ws.fail_accept:
+                        raise OSError('client went away before the WebSocket was accepted')
                     ws.accepted = True
                 elif ty == 'websocket.send':
                     if ws.client_closed or ws.closed_by_server:
@@ -316,8 +318,8 @@ class AsyncSut:
             body = body.encode('utf-8')
         return self.request('POST', 'transport=polling&sid=%s%s' % (sid, extra), headers, body, declared_len)
 
-    def ws_upgrade(self, sid, headers=None):
-        ws = WsPeer()
+    def ws_upgrade(self, sid, headers=None, peer=None):
+        ws = peer or WsPeer()
         h = {'Upgrade': 'websocket', 'Connection': 'Upgrade'}
         h.update(headers or {})
         return self.request('GET', 'transport=websocket&sid=%s' % sid, h, ws=ws)
